@@ -19,7 +19,7 @@ import (
 func init() {
 	vfRegister(&vfProp{
 		id:       "C05",
-		classes:  []string{"root", "root-alloc", "unpriv"},
+		classes:  []string{"root", "root-alloc", "unpriv", "root", "root-alloc", "unpriv", "root", "root-alloc", "unpriv", "root", "root-alloc", "nowd"},
 		gen:      c05Gen,
 		exec:     c05Exec,
 		maxSteps: 400000,
@@ -70,6 +70,16 @@ func c05Form(root, n string, form int) string {
 func c05Gen(class string, seed uint64, tier string) *vfScenario {
 	rng := vfRng(seed, 1)
 	sc := &vfScenario{Cfg: map[string]int64{"kind": 0}}
+	if class == "nowd" {
+		// a server without a configured working directory: relative names are the process's (read-only questions only)
+		sc.Cfg["nowd"] = 1
+		sc.Cfg["alloc"] = int64(rng.IntN(2))
+		sc.Cfg["ssites"], sc.Cfg["csites"] = int64(1+rng.IntN(3)), int64(rng.IntN(4))
+		for i, n := 0, 1+rng.IntN(5); i < n; i++ {
+			sc.Ops = append(sc.Ops, vfOp{K: []string{"realpath", "realpath", "getwd", "stat"}[rng.IntN(4)], P: []string{".", "", "a/b", "./x/../y", "..", "../..", "/abs/p", "a//b/./c/"}[rng.IntN(8)]})
+		}
+		return sc
+	}
 	if class == "root-alloc" {
 		sc.Cfg["alloc"] = 1
 	}
@@ -129,7 +139,65 @@ type c05Step struct {
 	vals string
 }
 
+// c05NoWorkDir: without WithServerWorkingDirectory every relative name is resolved like package os does it in this
+// process: RealPath(p) == filepath.Abs(p), Getwd() == os.Getwd(), Stat(p) agrees with os.Stat(p).
+func c05NoWorkDir(r *vfRun) {
+	sc, sim := r.sc, r.sim
+	vfServerSites(sim, sc.cfg("ssites", 3))
+	vfClientSites(sim, sc.cfg("csites", 7))
+	srv := vfStartServer(sim, 0, sc.cfg("alloc", 0) != 0, nil, 0, "", false, "", 0)
+	c, err := vfStartClient(sim, srv.c2s, srv.s2c)
+	if err != nil {
+		r.fail("C05/handshake", "handshake", "handshake failed: %v", err)
+		return
+	}
+	var mismatch, msig string
+	tk := vfSpawnTask(sim, 0, len(sc.Ops), func(i int) {
+		if mismatch != "" {
+			return
+		}
+		op := sc.Ops[i]
+		switch op.K {
+		case "realpath":
+			got, e1 := c.RealPath(op.P)
+			want, e2 := filepath.Abs(op.P)
+			if (e1 == nil) != (e2 == nil) || (e1 == nil && got != want) {
+				mismatch, msig = fmt.Sprintf("RealPath(%q) on a server without a working directory = %q, %v; filepath.Abs gives %q, %v", op.P, got, e1, want, e2), "value:realpath-nowd"
+			}
+		case "getwd":
+			got, e1 := c.Getwd()
+			want, e2 := os.Getwd()
+			if (e1 == nil) != (e2 == nil) || (e1 == nil && got != want) {
+				mismatch, msig = fmt.Sprintf("Getwd() on a server without a working directory = %q, %v; os.Getwd gives %q, %v", got, e1, want, e2), "value:getwd-nowd"
+			}
+		case "stat":
+			_, e1 := c.Stat(op.P)
+			_, e2 := os.Stat(op.P)
+			if c05Category(e1) != c05Category(e2) {
+				mismatch, msig = fmt.Sprintf("Stat(%q) on a server without a working directory: %v; os.Stat: %v", op.P, e1, e2), "outcome:stat-nowd"
+			}
+		}
+	})
+	sim.run(tk.finished)
+	if sim.failed() {
+		return
+	}
+	if !tk.finished() {
+		r.fail("C05/call-never-returned", "liveness", "calls did not return")
+		return
+	}
+	if mismatch != "" {
+		r.fail("C05/differs-from-os", msig, "%s", mismatch)
+		return
+	}
+	r.res.NonTrivial = true
+}
+
 func c05Exec(r *vfRun) {
+	if r.sc.cfg("nowd", 0) != 0 {
+		c05NoWorkDir(r)
+		return
+	}
 	sc, sim := r.sc, r.sim
 	v, err := vfStartFileSystem(r, nil)
 	defer v.cleanup()
